@@ -1,11 +1,357 @@
-// PENDING PROOFS (assumed for now)
-#[verifier::external_body]
+// Proofs that the stage compositions are the transform (no code involved).
+
+/// sum_{l<k} a0[j + l*t] * rho^l : the reduction of a0 modulo X^t - rho, coefficient j
+#[verifier::opaque]
+pub open spec fn bsum(a0: Seq<int>, j: int, t: int, rho: int, k: nat) -> int
+    decreases k
+{
+    if k == 0 { 0 } else { bsum(a0, j, t, rho, (k - 1) as nat) + a0[j + (k - 1) * t] * powi(rho, (k - 1) as nat) }
+}
+proof fn lemma_bsum_step(a0: Seq<int>, j: int, t: int, rho: int, k: nat)
+    ensures bsum(a0, j, t, rho, k + 1) == bsum(a0, j, t, rho, k) + a0[j + k * t] * powi(rho, k), bsum(a0, j, t, rho, 0) == 0
+{
+    reveal_with_fuel(bsum, 2);
+}
+/// the reduction only depends on rho modulo q
+proof fn lemma_bsum_cong(a0: Seq<int>, j: int, t: int, r1: int, r2: int, k: nat)
+    requires cong(r1, r2)
+    ensures cong(bsum(a0, j, t, r1, k), bsum(a0, j, t, r2, k))
+    decreases k
+{
+    if k == 0 { lemma_bsum_step(a0, j, t, r1, 0); lemma_bsum_step(a0, j, t, r2, 0); } else {
+        let kk = (k - 1) as nat;
+        lemma_bsum_cong(a0, j, t, r1, r2, kk);
+        lemma_bsum_step(a0, j, t, r1, kk);
+        lemma_bsum_step(a0, j, t, r2, kk);
+        lemma_powi_cong(r1, r2, kk);
+        lemma_cong_refl(a0[j + kk * t]);
+        lemma_cong_arith(a0[j + kk * t], a0[j + kk * t], powi(r1, kk), powi(r2, kk));
+        lemma_cong_arith(bsum(a0, j, t, r1, kk), bsum(a0, j, t, r2, kk), a0[j + kk * t] * powi(r1, kk), a0[j + kk * t] * powi(r2, kk));
+    }
+}
+/// splitting a reduction modulo X^(2t) - s^2 into the two reductions modulo X^t -+ s  (exact over Z)
+proof fn lemma_bsum_split(a0: Seq<int>, j: int, t: int, s: int, k: nat)
+    ensures bsum(a0, j, t, s, 2 * k) == bsum(a0, j, 2 * t, s * s, k) + s * bsum(a0, j + t, 2 * t, s * s, k)
+    decreases k
+{
+    if k == 0 {
+        lemma_bsum_step(a0, j, t, s, 0); lemma_bsum_step(a0, j, 2 * t, s * s, 0); lemma_bsum_step(a0, j + t, 2 * t, s * s, 0);
+        assert(s * 0 == 0);
+    } else {
+        let kk = (k - 1) as nat;
+        lemma_bsum_split(a0, j, t, s, kk);
+        lemma_bsum_step(a0, j, t, s, 2 * kk);
+        lemma_bsum_step(a0, j, t, s, 2 * kk + 1);
+        lemma_bsum_step(a0, j, 2 * t, s * s, kk);
+        lemma_bsum_step(a0, j + t, 2 * t, s * s, kk);
+        lemma_powi_sq(s, kk);
+        let p = powi(s * s, kk);
+        assert(j + (2 * kk) * t == j + kk * (2 * t)) by (nonlinear_arith);
+        assert(j + (2 * kk + 1) * t == (j + t) + kk * (2 * t)) by (nonlinear_arith);
+        let x = a0[j + kk * (2 * t)];
+        let y = a0[(j + t) + kk * (2 * t)];
+        let e = bsum(a0, j + t, 2 * t, s * s, kk);
+        assert(y * (s * p) == s * (y * p)) by (nonlinear_arith);
+        assert(s * (e + y * p) == s * e + s * (y * p)) by (nonlinear_arith);
+    }
+}
+proof fn lemma_bsum_is_eval(a0: Seq<int>, r: int, k: nat)
+    ensures bsum(a0, 0, 1, r, k) == eval_upto(a0, r, k)
+    decreases k
+{
+    if k == 0 { lemma_bsum_step(a0, 0, 1, r, 0); lemma_eval_step(a0, r, 0); } else {
+        let kk = (k - 1) as nat;
+        lemma_bsum_is_eval(a0, r, kk);
+        lemma_bsum_step(a0, 0, 1, r, kk);
+        lemma_eval_step(a0, r, kk);
+        assert(0 + kk * 1 == kk as int);
+    }
+}
+
+/// the state of the forward transform with m blocks of size t: block i is a0 mod (X^t - root(m,i))
+pub open spec fn block_inv(a: Seq<int>, a0: Seq<int>, m: int, t: int) -> bool {
+    &&& a.len() == a0.len()
+    &&& canon_seq(a)
+    &&& forall|p: int| 0 <= p < a.len() ==> cong(#[trigger] a[p], bsum(a0, p % t, t, root(m, p / t), m as nat))
+}
+
+proof fn lemma_divmod_halves(p: int, t: int)
+    requires t >= 1, p >= 0
+    ensures ({ let w = 2 * t; let i = p / w; let j = p % w;
+               &&& 0 <= j < w && p == i * w + j && i >= 0
+               &&& (j < t ==> p / t == 2 * i && p % t == j && (p + t) / w == i && (p + t) % w == j + t)
+               &&& (j >= t ==> p / t == 2 * i + 1 && p % t == j - t && (p - t) / w == i && (p - t) % w == j - t) })
+{
+    let w = 2 * t; let i = p / w; let j = p % w;
+    vstd::arithmetic::div_mod::lemma_fundamental_div_mod(p, w);
+    vstd::arithmetic::div_mod::lemma_div_pos_is_pos(p, w);
+    assert(p == i * w + j) by (nonlinear_arith) requires p == w * i + j;
+    if j < t {
+        assert(p == (2 * i) * t + j) by (nonlinear_arith) requires p == i * w + j, w == 2 * t;
+        vstd::arithmetic::div_mod::lemma_fundamental_div_mod_converse(p, t, 2 * i, j);
+        vstd::arithmetic::div_mod::lemma_fundamental_div_mod_converse(p + t, w, i, j + t);
+    } else {
+        assert(p == (2 * i + 1) * t + (j - t)) by (nonlinear_arith) requires p == i * w + j, w == 2 * t;
+        vstd::arithmetic::div_mod::lemma_fundamental_div_mod_converse(p, t, 2 * i + 1, j - t);
+        vstd::arithmetic::div_mod::lemma_fundamental_div_mod_converse(p - t, w, i, j - t);
+    }
+}
+
+/// one forward stage refines every block into its two halves
+proof fn lemma_stage_step(a: Seq<int>, a0: Seq<int>, m: int, t: int)
+    requires table_facts(), pow2(m), m <= 512, t >= 1, a0.len() == m * (2 * t), block_inv(a, a0, m, 2 * t)
+    ensures block_inv(stage_seq(a, m, t), a0, 2 * m, t)
+{
+    let b = stage_seq(a, m, t);
+    let n = a.len() as int;
+    let w = 2 * t;
+    assert forall|p: int| 0 <= p < n implies 0 <= #[trigger] b[p] < 12289
+        && cong(b[p], bsum(a0, p % t, t, root(2 * m, p / t), (2 * m) as nat)) by {
+        lemma_divmod_halves(p, t);
+        let i = p / w; let j = p % w;
+        assert(i < m) by (nonlinear_arith) requires p == i * w + j, p < m * w, j >= 0, w > 0;
+        let s = tab(m + i);
+        lemma_tab_square(m, i);
+        let rho = root(m, i);
+        if j < t {
+            let x = a[p]; let y = a[p + t];
+            assert((i + 1) * w <= m * w && (i + 1) * w == i * w + w) by (nonlinear_arith) requires i + 1 <= m, w >= 0;
+            assert(p + t < n);
+            lemma_modq_idem(x + y * s);
+            // a[p] ~ B(j), a[p+t] ~ B(j+t)
+            let bj = bsum(a0, j, w, rho, m as nat);
+            let bjt = bsum(a0, j + t, w, rho, m as nat);
+            assert(cong(x, bj));
+            assert(cong(y, bjt));
+            lemma_bsum_cong(a0, j, w, rho, s * s, m as nat);
+            lemma_bsum_cong(a0, j + t, w, rho, s * s, m as nat);
+            lemma_cong_trans(rho, s * s, s * s);
+            let cj = bsum(a0, j, w, s * s, m as nat);
+            let cjt = bsum(a0, j + t, w, s * s, m as nat);
+            lemma_cong_trans(x, bj, cj);
+            lemma_cong_trans(y, bjt, cjt);
+            lemma_cong_refl(s);
+            lemma_cong_arith(y, cjt, s, s);
+            lemma_cong_arith(x, cj, y * s, cjt * s);
+            lemma_bsum_split(a0, j, t, s, m as nat);
+            assert(cjt * s == s * cjt) by (nonlinear_arith);
+            lemma_cong_trans(b[p], x + y * s, cj + cjt * s);
+            assert(root(2 * m, 2 * i) == s);
+        } else {
+            let x = a[p - t]; let y = a[p];
+            lemma_modq_idem(x - y * s);
+            let bj = bsum(a0, j - t, w, rho, m as nat);
+            let bjt = bsum(a0, j, w, rho, m as nat);
+            assert(cong(x, bj));
+            assert(cong(y, bjt));
+            let ns = -s;
+            assert(ns * ns == s * s) by (nonlinear_arith) requires ns == -s;
+            lemma_cong_trans(rho, s * s, s * s);
+            lemma_bsum_cong(a0, j - t, w, rho, ns * ns, m as nat);
+            lemma_bsum_cong(a0, j, w, rho, ns * ns, m as nat);
+            let cj = bsum(a0, j - t, w, ns * ns, m as nat);
+            let cjt = bsum(a0, j, w, ns * ns, m as nat);
+            lemma_cong_trans(x, bj, cj);
+            lemma_cong_trans(y, bjt, cjt);
+            lemma_cong_refl(s);
+            lemma_cong_arith(y, cjt, s, s);
+            lemma_cong_arith(x, cj, y * s, cjt * s);
+            lemma_bsum_split(a0, j - t, t, ns, m as nat);
+            assert((j - t) + t == j);
+            assert(cj - cjt * s == cj + ns * cjt) by (nonlinear_arith) requires ns == -s;
+            lemma_cong_trans(b[p], x - y * s, cj - cjt * s);
+            // root(2m, 2i+1) = modq(-s) ~ -s
+            assert((2 * i + 1) / 2 == i && (2 * i + 1) % 2 == 1);
+            lemma_cong_neg_modq(s);
+            lemma_bsum_cong(a0, j - t, t, modq(-s), ns, (2 * m) as nat);
+            lemma_cong_trans(b[p], bsum(a0, j - t, t, ns, (2 * m) as nat), bsum(a0, j - t, t, modq(-s), (2 * m) as nat));
+        }
+    }
+}
+
+proof fn lemma_fwd_blocks(a: Seq<int>, a0: Seq<int>, m: int, t: int)
+    requires table_facts(), pow2(m), pow2(t), pow2(a0.len() as int), m * t == a0.len(), block_inv(a, a0, m, t)
+    ensures block_inv(fwd(a, m, t), a0, a0.len() as int, 1)
+    decreases t
+{
+    reveal_with_fuel(fwd, 1);
+    if t > 1 {
+        let n = a0.len() as int;
+        assert(t % 2 == 0 && pow2(t / 2) && 2 * (t / 2) == t);
+        assert(m * (2 * (t / 2)) == n);
+        assert(m <= 512) by (nonlinear_arith) requires m * t == n, t >= 2, n <= 1024, m >= 1;
+        lemma_stage_step(a, a0, m, t / 2);
+        assert((2 * m) * (t / 2) == n) by (nonlinear_arith) requires m * (2 * (t / 2)) == n;
+        lemma_fwd_blocks(stage_seq(a, m, t / 2), a0, 2 * m, t / 2);
+    } else {
+        assert(m == a0.len()) by (nonlinear_arith) requires m * t == a0.len(), t == 1;
+    }
+}
+
+/// the composition of forward stages evaluates at the roots of X^n + 1
 proof fn thm_fwd_is_ntt(a: Seq<int>)
     requires table_facts(), pow2(a.len() as int), canon_seq(a)
     ensures fwd_spec(a) == ntt_of(a)
-{ }
-#[verifier::external_body]
+{
+    let n = a.len() as int;
+    assert forall|p: int| 0 <= p < n implies cong(#[trigger] a[p], bsum(a, p % n, n, root(1, p / n), 1)) by {
+        vstd::arithmetic::div_mod::lemma_fundamental_div_mod_converse(p, n, 0, p);
+        lemma_bsum_step(a, p, n, root(1, 0), 0);
+        lemma_powi_step(root(1, 0), 0);
+        assert(p + 0 * n == p);
+        assert(a[p] * 1 == a[p]);
+    }
+    assert(1 * n == n);
+    lemma_fwd_blocks(a, a, 1, n);
+    let f = fwd(a, 1, n);
+    assert forall|p: int| 0 <= p < n implies #[trigger] f[p] == ntt_of(a)[p] by {
+        assert(p % 1 == 0 && p / 1 == p);
+        lemma_bsum_is_eval(a, root(n, p), n as nat);
+        lemma_cong_modq(f[p], eval(a, root(n, p)));
+        lemma_modq_idem(f[p]);
+        assert(modq(f[p]) == f[p]) by { vstd::arithmetic::div_mod::lemma_small_mod(f[p] as nat, 12289); }
+    }
+    assert(f =~= ntt_of(a));
+}
+
+// ------------------------------------------------------------------------------------------
+// inverse direction
+
+proof fn lemma_stage_canon(a: Seq<int>, m: int, t: int)
+    ensures canon_seq(stage_seq(a, m, t)), stage_seq(a, m, t).len() == a.len()
+{
+    assert forall|p: int| 0 <= p < a.len() implies 0 <= #[trigger] stage_seq(a, m, t)[p] < 12289 by {
+        let w = 2 * t; let i = p / w; let j = p % w; let s = tab(m + i);
+        lemma_modq_idem(a[p] + a[p + t] * s);
+        lemma_modq_idem(a[p - t] - a[p] * s);
+    }
+}
+proof fn lemma_fwd_canon(a: Seq<int>, m: int, t: int)
+    requires canon_seq(a)
+    ensures canon_seq(fwd(a, m, t)), fwd(a, m, t).len() == a.len()
+    decreases t
+{
+    reveal_with_fuel(fwd, 1);
+    if t > 1 { lemma_stage_canon(a, m, t / 2); lemma_fwd_canon(stage_seq(a, m, t / 2), 2 * m, t / 2); }
+}
+
+/// an inverse stage undoes the matching forward stage up to a factor 2 (on scaled inputs)
+proof fn lemma_istage_stage(a: Seq<int>, c: int, h: int, t: int)
+    requires table_facts(), pow2(h), h <= 512, t >= 1, a.len() == h * (2 * t)
+    ensures istage_seq(scale(stage_seq(a, h, t), c), h, t) =~= scale(a, 2 * c)
+{
+    let n = a.len() as int;
+    let w = 2 * t;
+    let f = stage_seq(a, h, t);
+    let x = scale(f, c);
+    let y = istage_seq(x, h, t);
+    assert forall|p: int| 0 <= p < n implies #[trigger] y[p] == scale(a, 2 * c)[p] by {
+        lemma_divmod_halves(p, t);
+        let i = p / w; let j = p % w;
+        assert(i < h) by (nonlinear_arith) requires p == i * w + j, p < h * w, j >= 0, w > 0;
+        let s = tab(h + i);
+        let si = tabi(h + i);
+        assert(cong(s * si, 1));
+        if j < t {
+            assert((i + 1) * w <= h * w && (i + 1) * w == i * w + w) by (nonlinear_arith) requires i + 1 <= h, w >= 0;
+            assert(p + t < n);
+            let u = a[p]; let v = a[p + t];
+            // f[p] ~ u + v s ; f[p+t] ~ u - v s
+            lemma_modq_idem(u + v * s);
+            lemma_modq_idem(u - v * s);
+            lemma_modq_idem(c * f[p]);
+            lemma_modq_idem(c * f[p + t]);
+            lemma_cong_refl(c);
+            lemma_cong_arith(c, c, f[p], u + v * s);
+            lemma_cong_arith(c, c, f[p + t], u - v * s);
+            lemma_cong_trans(x[p], c * f[p], c * (u + v * s));
+            lemma_cong_trans(x[p + t], c * f[p + t], c * (u - v * s));
+            lemma_cong_arith(x[p], c * (u + v * s), x[p + t], c * (u - v * s));
+            assert(c * (u + v * s) + c * (u - v * s) == (2 * c) * u) by (nonlinear_arith);
+            lemma_cong_modq(x[p] + x[p + t], (2 * c) * u);
+        } else {
+            let u = a[p - t]; let v = a[p];
+            lemma_modq_idem(u + v * s);
+            lemma_modq_idem(u - v * s);
+            lemma_modq_idem(c * f[p - t]);
+            lemma_modq_idem(c * f[p]);
+            lemma_cong_refl(c);
+            lemma_cong_arith(c, c, f[p - t], u + v * s);
+            lemma_cong_arith(c, c, f[p], u - v * s);
+            lemma_cong_trans(x[p - t], c * f[p - t], c * (u + v * s));
+            lemma_cong_trans(x[p], c * f[p], c * (u - v * s));
+            lemma_cong_arith(x[p - t], c * (u + v * s), x[p], c * (u - v * s));
+            assert(c * (u + v * s) - c * (u - v * s) == ((2 * c) * v) * s) by (nonlinear_arith);
+            lemma_cong_refl(si);
+            lemma_cong_arith(x[p - t] - x[p], ((2 * c) * v) * s, si, si);
+            assert((((2 * c) * v) * s) * si == ((2 * c) * v) * (s * si)) by (nonlinear_arith);
+            lemma_cong_refl((2 * c) * v);
+            lemma_cong_arith((2 * c) * v, (2 * c) * v, s * si, 1);
+            assert(((2 * c) * v) * 1 == (2 * c) * v);
+            lemma_cong_trans((x[p - t] - x[p]) * si, ((2 * c) * v) * (s * si), (2 * c) * v);
+            lemma_cong_modq((x[p - t] - x[p]) * si, (2 * c) * v);
+        }
+    }
+}
+
+proof fn lemma_inv_fwd_gen(a: Seq<int>, m: int, t: int, c: int)
+    requires table_facts(), pow2(m), pow2(t), pow2(a.len() as int), m * t == a.len(), canon_seq(a)
+    ensures inv(scale(fwd(a, m, t), c), a.len() as int, 1) == inv(scale(a, c * t), m, t)
+    decreases t
+{
+    reveal_with_fuel(fwd, 1);
+    let n = a.len() as int;
+    if t > 1 {
+        let th = t / 2;
+        assert(t % 2 == 0 && pow2(th) && 2 * th == t);
+        assert(m <= 512) by (nonlinear_arith) requires m * t == n, t >= 2, n <= 1024, m >= 1;
+        let f = stage_seq(a, m, th);
+        lemma_stage_canon(a, m, th);
+        assert((2 * m) * th == n) by (nonlinear_arith) requires m * t == n, 2 * th == t;
+        lemma_inv_fwd_gen(f, 2 * m, th, c);
+        // inv(scale(f, c*th), 2m, th) unfolds one inverse stage with h = m
+        reveal_with_fuel(inv, 1);
+        assert((2 * m) / 2 == m);
+        assert(n == m * (2 * th)) by (nonlinear_arith) requires m * t == n, 2 * th == t;
+        lemma_istage_stage(a, c * th, m, th);
+        assert(2 * (c * th) == c * t) by (nonlinear_arith) requires 2 * th == t;
+    } else {
+        assert(m == n) by (nonlinear_arith) requires m * t == n, t == 1;
+        assert(c * 1 == c);
+    }
+}
+
+/// the composition of inverse stages followed by scaling with n^-1 inverts the forward transform
 proof fn thm_inv_fwd(a: Seq<int>, ninv: int)
     requires table_facts(), pow2(a.len() as int), canon_seq(a), 0 <= ninv < 12289, cong(ninv * a.len(), 1)
     ensures inv_spec(fwd_spec(a), ninv) == a
-{ }
+{
+    let n = a.len() as int;
+    let f = fwd(a, 1, n);
+    assert(1 * n == n);
+    lemma_fwd_canon(a, 1, n);
+    lemma_inv_fwd_gen(a, 1, n, 1);
+    assert(scale(f, 1) =~= f) by {
+        assert forall|p: int| 0 <= p < n implies #[trigger] scale(f, 1)[p] == f[p] by {
+            assert(1 * f[p] == f[p]);
+            vstd::arithmetic::div_mod::lemma_small_mod(f[p] as nat, 12289);
+        }
+    }
+    reveal_with_fuel(inv, 1);
+    assert(1 * n == n);
+    let g = scale(a, n);
+    assert(inv(f, n, 1) == g);
+    assert forall|p: int| 0 <= p < n implies #[trigger] scale(g, ninv)[p] == a[p] by {
+        lemma_modq_idem(n * a[p]);
+        lemma_cong_refl(ninv);
+        lemma_cong_arith(ninv, ninv, g[p], n * a[p]);
+        assert(ninv * (n * a[p]) == (ninv * n) * a[p]) by (nonlinear_arith);
+        lemma_cong_refl(a[p]);
+        lemma_cong_arith(ninv * n, 1, a[p], a[p]);
+        assert(1 * a[p] == a[p]);
+        lemma_cong_trans(ninv * g[p], (ninv * n) * a[p], a[p]);
+        lemma_cong_modq(ninv * g[p], a[p]);
+        vstd::arithmetic::div_mod::lemma_small_mod(a[p] as nat, 12289);
+    }
+    assert(scale(g, ninv) =~= a);
+}
